@@ -230,6 +230,16 @@ pub open spec fn enum_string_body(r: Expr, d: EnumDef) -> bool {
     r matches Expr::EMatch { expr, arms, .. } && is_var(*expr, "self"@) && arms@.len() == d.variants@.len()
     && forall|i: int| 0 <= i < arms@.len() ==> string_variant_arm(#[trigger] arms@[i], d.name, d.variants@[i].0, d.variants@[i].1@)
 }
+// ---- field types the generated method cannot render (fix 64a7fcd) ----
+#[verifier::external_body] pub fn field_type_not_supported(trait_name: &str, kind: &str, name: &AstIdent, attr_ptr: &MySyntaxNodePtr) -> (r: Diagnostic) { unimplemented!() }
+// tuples, arrays and function values have no to_string / to_json method and cannot get one
+pub open spec fn no_method_ty(t: TypeExpr) -> bool { t is TTuple || t is TArray || t is TFunc }
+pub open spec fn struct_unsupported(d: StructDef) -> bool {
+    d.generics@.len() > 0 || exists|i: int| 0 <= i < d.fields@.len() && no_method_ty((#[trigger] d.fields@[i]).1)
+}
+pub open spec fn enum_unsupported(d: EnumDef) -> bool {
+    d.generics@.len() > 0 || exists|i: int, j: int| 0 <= i < d.variants@.len() && 0 <= j < d.variants@[i].1@.len() && no_method_ty(#[trigger] d.variants@[i].1@[j])
+}
 // ---- expand: which item gets which impl, and where ----
 impl VClone for Vec<AstIdent> { #[verifier::external_body] fn vclone(&self) -> (r: Self) { unimplemented!() } }
 // diagnostics::Diagnostics: only the number of diagnostics pushed matters here; every diagnostic the derive builds has Severity::Error
@@ -245,11 +255,11 @@ pub open spec fn item_attrs(it: Item) -> Option<Seq<Attribute>> {
     match it { Item::StructDef(d) => Some(d.attrs@), Item::EnumDef(d) => Some(d.attrs@), _ => None }
 }
 pub open spec fn item_generic(it: Item) -> bool {
-    match it { Item::StructDef(d) => d.generics@.len() > 0, Item::EnumDef(d) => d.generics@.len() > 0, _ => false }
+    match it { Item::StructDef(d) => struct_unsupported(d), Item::EnumDef(d) => enum_unsupported(d), _ => false }
 }
 // the item asks for the trait (only struct and enum definitions can)
 pub open spec fn wants(it: Item, t: Seq<char>) -> bool { item_attrs(it) is Some && derives(item_attrs(it)->0, t) }
-// C18: a type the derive cannot handle — a generic struct / enum asking for a derive
+// C18: a type the derive cannot handle — a struct / enum asking for a derive that is generic or has a field of a tuple, array or function type
 pub open spec fn unsupported(it: Item) -> bool { item_generic(it) && (wants(it, "ToString"@) || wants(it, "ToJson"@)) }
 pub open spec fn is_tostring_impl(x: Item, it: Item) -> bool {
     x matches Item::ImplBlock(b) && match it {
